@@ -9,6 +9,8 @@
       parse    CmdParse.parse                       (twice, same parser object; option defaults before/between/after)
       command  Command(config).parse_execute        (GLOBAL + command section -> overwrite_defaults; twice)
       main     DoitMain.run -> DoitCmdBase.execute  (INI file or API config, DOIT_CONFIG -> update_defaults, exit code)
+               also API dict + pyproject.toml + doit.cfg at once (layers merged per key), the same extra_config object
+               given to an earlier DoitMain that saw other files; the caller's dict must stay unchanged
       premain  DoitMain.run with a loader that has options of its own (with env_var), some written in front of the
                command name (`doit -f x -k vcmd ...` -> opt_vals -> params.update); observed where loader.setup
                receives the parameters and after DOIT_CONFIG
@@ -141,6 +143,27 @@ def gen_case(rng, base, path=None):
         if path in ('main', 'premain'):
             case['dodo'] = dodo
             r = rng.random()
+            if path == 'main' and rng.random() < 0.35:
+                # API dict + pyproject.toml + doit.cfg at once: same sections, overlapping and disjoint keys
+                r = 2.0
+                case['ini_mode'] = 'mixed'
+
+                def layer_set():
+                    fs = {}
+                    for kind in ('toml', 'cfg'):
+                        if rng.random() < 0.75:
+                            _, i2, g2, _ = optlib.gen_sources(rng, gen_opts, good_p=0.97, p_ini=0.45, extra_keys=False)
+                            g2 += [e for e in optlib.gen_sources(rng, gen_opts, good_p=0.97, p_ini=0.3, extra_keys=False)[1]
+                                   if e[0] not in [x[0] for x in g2]]
+                            fs[kind] = optlib.filter_layer(kind, g2, i2)
+                        else:
+                            fs[kind] = None
+                    return fs
+                case['files'] = layer_set()
+                if rng.random() < 0.5:
+                    # an earlier invocation of the same API caller (same extra_config object) saw other files
+                    case['prev_files'] = layer_set()
+                    case['want_prev'] = True
             if r < 0.3 and optlib.toml_file_ok(case):
                 case['ini_mode'] = 'toml'
             elif r < 0.65:
@@ -164,11 +187,19 @@ def gen_case(rng, base, path=None):
         case['argv'] = optlib.render(case['asgs'], case['sep'], case['pos'])
         if 0.18 <= kind < 0.42:
             case['malformed'] = optlib.inject_malformed(rng, case)
-    if path in ('parse', 'command', 'main') and rng.random() < 0.35:
+            if case['malformed'] == 'bad-config' and case.get('ini_mode') == 'mixed':
+                # the injected value sits in the API layer: no config file may replace that key
+                bad = case['ini'][-1][0]
+                for fs in (case.get('files') or {}).values():
+                    if fs is not None:
+                        fs['ini'] = [e for e in fs['ini'] if e[0] != bad]
+    if path in ('parse', 'command', 'main') and (rng.random() < 0.35 or case.get('want_prev')):
         # history: another command line handled first by the same parser / command object / process
         prev = optlib.render(optlib.gen_asgs(rng, gen_opts, n=rng.randint(1, 4), good_p=0.95), False, [])
         if not any(a == '' or ('=' in a and not a.startswith('-')) for a in prev):
             case['prev_argv'] = prev
+        elif case.get('want_prev'):
+            case['prev_argv'] = []
     if path == 'premain' and any(a == '' for a in case['pre']):
         return gen_case(rng, base, path)
     if path == 'runtask':
@@ -208,9 +239,19 @@ def gen_case(rng, base, path=None):
     return case
 
 
+def add_layers(req, case):
+    """mixed config: the section as extra_config, pyproject.toml and doit.cfg hold it (the model merges per key)"""
+    if case.get('ini_mode') == 'mixed':
+        fs = case.get('files') or {}
+        for fld in ('ini', 'glob'):
+            req[fld + '_layers'] = [case[fld]] + [fs[k][fld] for k in ('toml', 'cfg') if fs.get(k) is not None]
+    return req
+
+
 def model_request(case):
     req = {'model': 'opt', 'spec': case['spec'], 'env': case['env'], 'ini': case['ini'], 'glob': case['glob'],
            'dodo': case['dodo'], 'argv': case['argv']}
+    add_layers(req, case)
     req['op'] = 'parse' if case['path'] in ('parse', 'realcmd') else 'pipeline'
     if case['path'] == 'premain':
         req.update(op='prepipeline', lspec=case['lspec'], pre=case['pre'])
@@ -229,9 +270,9 @@ def aux_requests(case):
 
 
 def spec_request(case):
-    return {'model': 'opt', 'op': 'spec', 'spec': case['spec'], 'env': case['env'], 'ini': case['ini'],
+    return add_layers({'model': 'opt', 'op': 'spec', 'spec': case['spec'], 'env': case['env'], 'ini': case['ini'],
             'glob': case['glob'], 'dodo': case['dodo'], 'asgs': case['asgs'] or [], 'sep': case['sep'],
-            'pos': case['pos']}
+            'pos': case['pos']}, case)
 
 
 def run_impl(case, workdir):
@@ -342,6 +383,10 @@ def judge(case, impl, model, spec):
     if path in ('parse', 'realcmd') and 'defaults0' in impl and not (impl['defaults0'] == impl['defaults'] == impl['defaults2']):
         viol.append(('pure', 'parse changed option defaults: %s -> %s -> %s'
                      % (impl['defaults0'], impl['defaults'], impl['defaults2'])))
+    if impl.get('extra_config_mutated'):
+        m = impl['extra_config_mutated']
+        viol.append(('pure', 'DoitMain modified the extra_config dict of its caller: %s -> %s'
+                     % (canon(m['before'])[:200], canon(m['after'])[:300])))
     if path == 'task' and impl.get('again_is_none') is False:
         viol.append(('pure', 'Task.init_options parsed a second time'))
     wf = model.get('wf')
@@ -500,6 +545,25 @@ def shrink(case, label, cap=120):
             del c['pre_asgs'][i]
             c['pre'] = optlib.render(c['pre_asgs'], False, [])
             cands.append(c)
+        for fkey in ('files', 'prev_files'):
+            fs = cur.get(fkey)
+            if not fs:
+                continue
+            if fkey == 'prev_files':
+                c = json.loads(json.dumps(cur))
+                del c['prev_files']
+                cands.append(c)
+            for kind in ('toml', 'cfg'):
+                if fs.get(kind) is None:
+                    continue
+                c = json.loads(json.dumps(cur))
+                c[fkey][kind] = None
+                cands.append(c)
+                for fld in ('glob', 'ini'):
+                    for i in range(len(fs[kind][fld])):
+                        c = json.loads(json.dumps(cur))
+                        del c[fkey][kind][fld][i]
+                        cands.append(c)
         for fld in ('env', 'ini', 'glob', 'dodo'):
             for i in range(len(cur[fld])):
                 c = json.loads(json.dumps(cur))
@@ -594,10 +658,19 @@ def witness_of(case, impl, model, spec, label, note):
 def account(st, case, impl, model, spec):
     st.case({'path': case['path'], 'cmd': case.get('cmd'), 'spec': [[o['name'], o['type'], o['short'], o['long'], o['inverse']] for o in case['spec'][case['n_base']:]],
              'argv': case['argv'], 'env': case['env'], 'ini': case['ini'], 'dodo': case['dodo'],
-             'prev': case.get('prev_argv'), 'pre': case.get('pre')},
+             'prev': case.get('prev_argv'), 'pre': case.get('pre'), 'files': case.get('files'),
+             'prev_files': case.get('prev_files')},
             nontrivial(case, impl))
     st.traces += 1
     st.count('path:' + case['path'] + (('/config-' + case['ini_mode']) if case['path'] in ('main', 'runtask') else ''))
+    if case.get('ini_mode') == 'mixed':
+        fs = case.get('files') or {}
+        st.count('mixed-config:files=%s%s' % ('+'.join(k for k in ('toml', 'cfg') if fs.get(k) is not None) or 'none',
+                                              ',earlier-files' if 'prev_files' in case and case.get('prev_argv') is not None else ''))
+        keys = [set(e[0] for e in case['ini'] + case['glob'])] + \
+               [set(e[0] for e in fs[k]['ini'] + fs[k]['glob']) for k in ('toml', 'cfg') if fs.get(k) is not None]
+        if len(keys) > 1:
+            st.count('mixed-config:key-in-several-layers=%s' % any(a & b for i, a in enumerate(keys) for b in keys[i + 1:]))
     if case['path'] == 'runtask':
         st.count('runtask:pos_arg=%s,section=%s,args=%s' % (bool(case.get('pos_arg')), bool(case['ini']), bool(case['argv'])))
     if case['path'] == 'realcmd':
@@ -775,6 +848,11 @@ def replay(ctx, data):
     if c['path'] == 'runtask':
         print('task t  : pos_arg=%s, per-task config section present: %s (%s); command line: doit t %s'
               % (bool(c.get('pos_arg')), bool(c['ini'] or c.get('cfg_not_none')), c.get('ini_mode'), ' '.join(c['argv'])))
+    if c.get('ini_mode') == 'mixed':
+        print('config  : extra_config (same dict object for every DoitMain of the case) = the sections above; files of '
+              'this invocation: %s' % json.dumps(c.get('files')))
+        if c.get('prev_argv') is not None and 'prev_files' in c:
+            print('          files present during the earlier invocation: %s' % json.dumps(c['prev_files']))
     if c.get('pre') is not None:
         print('loader options %s; written before the command name: %s' % (json.dumps(c['lspec']), c['pre']))
     if c.get('prev_argv') is not None:
